@@ -218,6 +218,45 @@ def lex(chunks_iterable, api='lexer'):
     return ('ok', out)
 
 
+def _safe_batch_ends(src, ends, seed):
+    """Line ends (a sample of at most 10) at which the text so far consists of
+    complete tokens: the lexer accepts the prefix on its own."""
+    from pico8.lua import lexer
+    rng = core.derive_rng(seed, 'batch-ends', 0)
+    cand = sorted(rng.sample(ends, min(len(ends), 10)))
+    out = []
+    for o in cand:
+        lx = lexer.Lexer(version=33)
+        try:
+            lx.process_lines([src[:o]])
+        except Exception:
+            continue
+        out.append(o)
+    return out
+
+
+def lex_batches(chunks, per):
+    """The text appended to one long-lived Lua object in batches of `per`
+    chunks (the documented way to add lines to a cart's code).  A batch that
+    ends inside a block makes the parser reject the program so far; the
+    caller carries on with the next batch."""
+    from pico8.lua import lexer, lua, parser
+    obj = lua.Lua(33)
+    batches = [chunks[i:i + per] for i in range(0, len(chunks), per)]
+    for i, b in enumerate(batches):
+        try:
+            obj.update_from_lines(b)
+        except parser.ParserError as e:
+            if i == len(batches) - 1:
+                return ('error', type(e).__name__, str(e)[:80], None)
+        except lexer.LexerError as e:
+            return ('error', type(e).__name__, getattr(e, 'lineno', None),
+                    getattr(e, 'charno', None))
+        except Exception as e:
+            return ('error', type(e).__name__, str(e)[:80], None)
+    return lex_tokens(obj.tokens)
+
+
 def interleaved(chunks, seed, api):
     """Cooperative interleaving of two lexers: between two chunks of the
     lexer under test, a second, independent lexer is fed a whole other
@@ -568,9 +607,20 @@ def execute(sc):
         core.bump(res['probes'], 'second-lexer-interleaved')
     if sc.get('big'):
         core.bump(res['probes'], 'big-multi-line-token')
+    if api == 'lua' and base[0] == 'ok' and sc.get('cuts') is None and ends:
+        # appended to one object in batches: a batch may end inside a block
+        # (the parser then rejects the program so far), but not inside a
+        # token - each call has to bring complete tokens
+        safe = _safe_batch_ends(src, ends, (sc.get('cut_seeds') or [0])[0])
+        if safe:
+            deliveries.append(('batches-1', safe, 'batches:1'))
+            deliveries.append(('batches-2', safe, 'batches:2'))
+            core.bump(res['probes'], 'appended-in-batches')
     for tag, cuts, form in deliveries:
         chunks = chunk(src, cuts)
-        if form == 'interleaved':
+        if form.startswith('batches:'):
+            got = lex_batches(list(chunks), int(form[8:]))
+        elif form == 'interleaved':
             got = lex(interleaved(chunks, sc.get('interleave') or 0, api),
                       api)
         else:
